@@ -58,7 +58,11 @@ class SIRModel(object):
 
     def run(self, rng, full):
         import EoN
-        return getattr(EoN, self.simname)(self.G, self.tau, self.gamma, **self.kwargs(full))
+        from .. import simrun
+        args, kw = [self.G, self.tau, self.gamma], self.kwargs(full)
+        if (len(self.case['gc']['edges']) + len(self.I0)) % 2 == 1:
+            args, kw = simrun.positional(self.simname, args, kw)        # every argument by position, in the documented order
+        return getattr(EoN, self.simname)(*args, **kw)
 
     def events(self, out):
         ev = []
@@ -314,6 +318,7 @@ def mc_configs(sims, thorough=False):
     for sim in sims:
         for b in base:
             c = falsy_labels(dict(b), len(out))
+            c['positional'] = len(out) % 3 == 1
             c['sim'] = sim
             c['tmin'] = [0, -5.0, 3.5][len(out) % 3]
             g = c['gamma'] if c['gamma'] > 0 else 1.0
